@@ -362,6 +362,97 @@ def representation(run):
             run.add(f"C15/conversion-back/dequantize-does-not-raise/path{pi}:{back_deq[1].tname}", r.hyps, z3.BoolVal(False), "property", inst, replay=rp_back)
 
 
+def class_round_trip(run):
+    """AWQPackedTensor.pack / .unpack (the class entry points used by AWQBitsTensor) on a source matrix with ARBITRARY strides: the
+    unpacked tensor holds the values of the source.  The layout functions enter through their proved contract (unpack o pack = id)."""
+    from qvc.torchmodel import make_wrapper_subclass  # noqa: F401
+    for packing in ("V1", "V2"):
+        for reorder in ((False, True) if packing == "V1" else (False,)):
+            inst = {"lemma": "class round trip", "packing": packing, "reorder": reorder}
+            E = run.engine(intmode="bv")
+            E.load_module(AWQP)
+
+            def pack_c(E2, args, kwargs):
+                t = args[0]
+                rows = t.shape[0] if packing == "V1" else E2.floordiv(t.shape[0], 4)
+                cols = E2.floordiv(t.shape[1], 8) if packing == "V1" else t.shape[1]
+                payload = new_input(E2, E2.fresh_name("awqpayload").replace("#", "_"), "int32" if packing == "V1" else "int16", [rows, cols], device=t.device)
+                payload.attrs["ghost_codes"] = STensor("uint8", list(t.shape), t.snap(), device=t.device)
+                return payload
+
+            def unpack_c(E2, args, kwargs):
+                g = args[0].attrs.get("ghost_codes")
+                if g is None:
+                    raise Unsupported("unpack of a payload that was not produced by pack")
+                return STensor("uint8", list(g.shape), g.snap(), device=g.device)
+
+            for nm in ("pack", "pack_v2"):
+                E.contracts[f"{AWQP}::{nm}"] = pack_c
+            for nm in ("unpack", "unpack_v2"):
+                E.contracts[f"{AWQP}::{nm}"] = unpack_c
+            N, C = z3.Ints("N C")
+            s0, s1 = z3.Ints("st0 st1")
+
+            def prog(E2, packing=packing, reorder=reorder):
+                E2.assume(N >= 1)
+                E2.assume(C >= 1)
+                E2.assume(s0 >= 0)
+                E2.assume(s1 >= 0)
+                t = new_input(E2, "T", "uint8", [4 * N, 8 * C], device="cuda", strides=[s0, s1])
+                AP = E2.get(f"{AWQP}::AWQPackedTensor")
+                pk = E2.load_module(AWQP).env.lookup("AWQPacking")
+                p = E2.call(E2.getattr(AP, "pack"), [t], {"packing": E2.getattr(pk, packing), "reorder": reorder})
+                return E2.call(E2.getattr(p, "unpack"), [], {})
+
+            tag = f"{packing}/reorder={reorder}"
+            try:
+                res = E.explore(Builtin("awqcls", prog), lambda E2: ([], {}), name="C15.class")
+            except Unsupported as u:
+                run.undecide(f"C15/class-round-trip[{tag}]", u, inst)
+                continue
+            run.absorb(E)
+            if not run.expect_paths(res, f"C15/class-round-trip[{tag}]", inst):
+                continue
+            rp = lambda m, s, i=dict(inst): replay_class(m, s, i)
+            for pi, r in enumerate(res):
+                if r.outcome != "return":
+                    run.add(f"C15/class-round-trip-runs[{tag}]/path{pi}", r.hyps, z3.BoolVal(False), "property", inst, {"outcome": repr(r.value)[:200]}, replay=rp)
+                    continue
+                E.focus(r)
+                u = r.value
+                run.add(f"C15/class-unpacked-shape[{tag}]/path{pi}", r.hyps, lib.shape_eq(u.shape, [4 * N, 8 * C]), "property", inst, replay=rp)
+                if len(u.shape) != 2:
+                    continue
+                ids, inb = idx_vars("u", [4 * N, 8 * C])
+                tf = z3.Function("T", z3.IntSort(), z3.IntSort(), z3.BitVecSort(8))
+                got = u.elem(ids)
+                facts = E.drain()
+                run.add(f"C15/class-unpack-returns-the-source-values[{tag}]/path{pi}", r.hyps + inb + facts, got == tf(*ids), "property", inst, replay=rp, timeout=60)
+                for o in r.obligations:
+                    if o.kind in ("assert", "torch-pre", "callee-pre"):
+                        run.add(f"C15/class-round-trip-no-runtime-error[{tag}]/path{pi}/{o.name}@{o.loc}", o.hyps, o.goal, "property", inst, replay=rp)
+
+
+def replay_class(model, seed, inst):
+    import torch
+
+    torch.manual_seed(seed)
+    P = _cpu_module(AWQP, "optimum.quanto.tensor.qbits.awq.packed")
+    packing = getattr(P.AWQPacking, inst["packing"])
+    base = torch.randint(0, 16, (128, 128), dtype=torch.uint8)
+    views = {"contiguous": base[:64, :64].contiguous(), "transposed": base.t()[:64, :64], "column-slice": base[:64, 32:96], "row-step": base[::2, :64]}
+    for name, t in views.items():
+        try:
+            p = P.AWQPackedTensor.pack(t, packing=packing, reorder=inst["reorder"])
+            u = p.unpack()
+        except Exception as e:
+            return {"what": f"round trip raises {type(e).__name__}: {str(e)[:120]}", "source": name}
+        if tuple(u.shape) != tuple(t.shape) or not torch.equal(u.to(torch.uint8), t):
+            return {"what": "AWQPackedTensor.unpack() does not return the values of the packed matrix", "source": name, "packing": inst["packing"], "reorder": inst["reorder"]}
+    return None
+
+
+
 def build(run):
     from props import conformance
 
@@ -376,7 +467,7 @@ def build(run):
     for key in (f"{AWQP}::pack", f"{AWQP}::reverse_awq_order", f"{AWQP}::unpack", f"{AWQP}::pack_v2", f"{AWQP}::unpack_v2", f"{REF}::pack_intweight",
                 f"{AWQQ}::AWQBitsTensor.__init__", f"{AWQQ}::AWQBitsDequantizer.forward", f"{AWQQ}::AWQBitsTensor.qbits_tensor"):
         run.under_contract(E0, key)
-    for part in (v2_layout, v1_layout, representation):
+    for part in (v2_layout, v1_layout, class_round_trip, representation):
         try:
             part(run)
         except Unsupported as u:
@@ -512,6 +603,12 @@ def replay_repr(model, seed, clauses=("awq", "conversion")):
     if b._zeropoint.dtype != torch.int8 or not torch.equal(b._zeropoint, q._zeropoint):
         return {"what": "conversion back does not restore the zero-points", "dtype": str(b._zeropoint.dtype)}
     return None
+
+
+def _replay_file_extra(inst):
+    if inst.get("lemma") == "class round trip":
+        return replay_class({}, 0, inst)
+    return "n/a"
 
 
 def replay_file(path):
